@@ -14,6 +14,7 @@
              for p = lo, lo+step, ... <= hi: the positional sink that follows the soft script for
              its first p bytes and then answers <hard>
            | (path <target> (sizes n...))            -> (pres <rc> <file content> (state max_id trailer) <resave same>)
+                                                       or (pres <rc> <file content> (state ?) ?), see state_known
              Document::save(path) / IncrementalDocument::save(path) (Model/SinkBuf.v, capacity 8192); `sizes` = the
              write_all buffers the implementation really issues for this document (measured by the harness with a
              recording sink), so that WHEN the BufWriter flushes -- and with it whether the mutation point is reached
@@ -185,6 +186,17 @@ Definition run_path (c : cfg) (full : bytes) (cut : N) (sizes : list nat) (targe
   let '(post, _) := chop rest b in
   Some (save_path_with qwrite_all DEFAULT_BUF_SIZE (c_mode c) (c_ids c) pre post (c_state c) (fst dv) (snd dv)).
 
+(* the document state after save(path) is a function of the observable outcome -- not of the buffer capacity and the
+   call boundaries -- when the save succeeded, when the file could not be created, or when the file holds at least the
+   bytes written before the mutation point (Props C19_save_path_residue); otherwise it is printed as `?` on both sides
+   (and the harness checks directly that it is one of the two states the theorem allows) *)
+Definition state_known (target : sx) (cut : N) (r : wres) (f : bytes) : bool :=
+  match r with
+  | WOk => true
+  | WErr _ => is_id target "dir" || (cut <=? N.of_nat (length f))%N
+  end.
+Definition q := sx_id "?".
+
 Definition run_path_job (c : cfg) (full : bytes) (cut : N) (job : sx) : option sx :=
   match job with
   | SL [t; a1; a2] =>
@@ -192,7 +204,9 @@ Definition run_path_job (c : cfg) (full : bytes) (cut : N) (job : sx) : option s
       do sizes <- sizes_of_sx a2;
       do res <- run_path c full cut sizes a1;
       let '(r, f, st') := res in
-      Some (SL [sx_id "pres"; rc_to_sx r; sx_bytes f; state_to_sx st'; sx_bool (resave_same (c_mode c) (c_state c) st')])
+      if state_known a1 cut r f then
+        Some (SL [sx_id "pres"; rc_to_sx r; sx_bytes f; state_to_sx st'; sx_bool (resave_same (c_mode c) (c_state c) st')])
+      else Some (SL [sx_id "pres"; rc_to_sx r; sx_bytes f; SL [sx_id "state"; q]; q])
     else if is_id t "psweep" then
       do sizes <- sizes_of_sx a1;
       match a2 with
@@ -202,8 +216,10 @@ Definition run_path_job (c : cfg) (full : bytes) (cut : N) (job : sx) : option s
           do rows <- omap (fun p =>
                              do res <- run_path c full cut sizes (SL [sx_id "limit"; sx_N p]);
                              let '(r, f, st') := res in
-                             Some (SL [rc_to_sx r; sx_N (N.of_nat (length f)); sx_N (s_max_id st'); sx_Z (size_of st');
-                                       sx_bool (resave_same (c_mode c) (c_state c) st')])) ps;
+                             if state_known (sx_id "limit") cut r f then
+                               Some (SL [rc_to_sx r; sx_N (N.of_nat (length f)); sx_N (s_max_id st'); sx_Z (size_of st');
+                                         sx_bool (resave_same (c_mode c) (c_state c) st')])
+                             else Some (SL [rc_to_sx r; sx_N (N.of_nat (length f)); q; q; q])) ps;
           Some (SL (sx_id "psweep" :: rows))
         else None
       | _ => None
